@@ -310,6 +310,44 @@ pub fn run(ctx: &Ctx) -> i32 {
         longs.push(deep);
     }
     acc = acc.merge(par_items(&longs, |e, acc| check(e, acc)));
+    // an unsupported test whose argument equals the argument of a supported test next to it
+    // (tables keyed by the argument text), in plain and in framed programs, both orders
+    {
+        let mut same = vec![];
+        for x in ["core", "a*", "x", "A", "f"] {
+            let s = x.to_string();
+            let uns: Vec<Test> = vec![Test::Regex(s.clone()), Test::IRegex(s.clone()), Test::LName(s.clone()), Test::ILName(s.clone()), Test::User(s.clone()), Test::Group(s.clone()), Test::FsType(s.clone()), Test::Samefile(s.clone()), Test::ANewer(s.clone())];
+            let sup: Vec<Test> = vec![Test::Name(s.clone()), Test::IName(s.clone()), Test::Path(s.clone()), Test::IPath(s.clone()), Test::Pool(s.clone()), Test::Xattr(s.clone())];
+            for u in &uns {
+                for p in &sup {
+                    for tail in [Action::Print, Action::Print0, Action::FPrint(s.clone())] {
+                        let (u, p) = (Expr::Test(u.clone()), Expr::Test(p.clone()));
+                        same.push(Expr::and(Expr::or(p.clone(), u.clone()), Expr::Action(tail.clone())));
+                        same.push(Expr::and(Expr::or(u.clone(), p.clone()), Expr::Action(tail.clone())));
+                        same.push(Expr::and(Expr::and(p, Expr::not(u)), Expr::Action(tail)));
+                    }
+                }
+            }
+        }
+        acc = acc.merge(par_items(&same, |e, acc| check(e, acc)));
+    }
+    // a refusal belongs to the call that asked: several threads compile supported and unsupported
+    // expressions at once (sampled schedules)
+    {
+        let texts: Vec<String> = ["-nouser -a -name a -size +1k -uid 0 -print", "-name core -print", "-name x -regex x -print0", "-name y -fprint f", "-printf '%p %d\\n'", "-printf '%p\\n' -o -name q", "-user root", "-type f -print0", "-ls", "-mtime -1 -print"]
+            .iter()
+            .map(|s| s.to_string())
+            .collect();
+        let rounds = ctx.tier.pick(1500, 20000);
+        acc.count("concurrent_compiles_sampled", (texts.len() * rounds) as u64);
+        for (k, r, want, got) in crate::subject::concurrent_calls(&texts, rounds) {
+            acc.violate(Violation::new(
+                "C12:refusal-depends-on-other-threads",
+                format!("{} threads compile their own expressions at once; thread {k} ({:?}) got in round {r}: {} -- alone it gets: {}", texts.len(), texts[k], got.lines().last().unwrap_or("").chars().take(300).collect::<String>(), want.lines().last().unwrap_or("").chars().take(300).collect::<String>()),
+                json!({"kind": "concurrent"}),
+            ));
+        }
+    }
     let mut extra = serde_json::Map::new();
     extra.insert("constructs_alone".into(), json!(singles.len()));
     finish(
@@ -319,7 +357,7 @@ pub fn run(ctx: &Ctx) -> i32 {
             level: "model_checking",
             exhaustive: true,
             rule: "state = expression tree built through the public constructors; compile() must fail exactly when the tree contains a construct of the spec-side 'inexpressible' partition, with an error text containing the subject's own name of one such construct in the tree; successful programs must read back with no unbound identifier; distinct = distinct error texts".into(),
-            bound: format!("every construct of the vocabulary alone, negated and parenthesised ({} leaves); every tree with 2..{maxn} leaves over 3 supported + 8 unsupported representatives + true/false with all operators (dead branches included); chains of 9..300 operands (around every multiple of 64) under each operator with one unsupported construct at 7 positions, and under 9..300 negations; every compile is issued twice and the answers compared", singles.len()),
+            bound: format!("every construct of the vocabulary alone, negated and parenthesised ({} leaves); every tree with 2..{maxn} leaves over 3 supported + 8 unsupported representatives + true/false with all operators (dead branches included); chains of 9..300 operands (around every multiple of 64) under each operator with one unsupported construct at 7 positions, and under 9..300 negations; every compile is issued twice and the answers compared; 810 trees pairing an unsupported test with a supported test on the same argument text; a stress run of 10 threads compiling supported and unsupported expressions at once (sampled schedules, outside the bound)", singles.len()),
             assumptions: vec![
                 "partition expressible/inexpressible: harness/speclib/src/eval.rs::inexpressible (from the subject's ast.rs comment block and the LiPE vocabulary)".into(),
                 "the \\c escape may be refused or compiled".into(),
